@@ -321,18 +321,23 @@ def find_operators(expr: sympy.Expr) -> list[OperatorType]:
     """
     # replace n -> a† * a and convert number ordered forms to expressions.
     # Number operator of ladder operators need to be included separately.
-    expr = expr.doit()
+    # Operators of terms that vanish after the replacement (like n_c * c for a
+    # fermion c) are still operators of the expression.
+    exprs = (expr, expr.doit())
     return sorted(
         set().union(
             (
                 op
                 for particle, generator in zip(operator_types, generator_types)
+                for expr in exprs
                 for op in (generator(atom.name) for atom in expr.atoms(particle))
             ),
             (
-                LadderOp(atom.name)
+                generator(atom.name)
+                for particle, generator in zip(operator_types, generator_types)
+                for expr in exprs
                 for atom in expr.atoms(NumberOperator)
-                if atom.args[1].name == "LadderOp"
+                if atom.args[1].name == particle.__name__
             ),
         ),
         key=lambda op: (generator_types.index(type(op)), str(op.name)),
